@@ -1,5 +1,6 @@
 pub mod c04;
 pub mod c05;
+pub mod c06;
 pub mod c12;
 pub mod c13;
 pub mod c14;
@@ -136,6 +137,14 @@ pub fn all() -> Vec<CheckDef> {
             rule: "role-based session fuzzer: a scripted scene (5 bystanders ranked founder/op/half-op/voice/plain in #c0, an IRC operator, a predefined channel, bans, away/invisible users), the fuzzed connection in one of 10 roles (unregistered, alone, plain, voice, half-op, op, protected, founder, IRC operator, after peers left) sends 1-30 lines from a table of 42 verbs x arity 0..max+2 x 40 parameter shapes (existing/non-existing/own/duplicated names, empty, 1900-byte, multi-byte, wildcard-heavy masks, numeric extremes, sign-switching mode strings, status-prefix soups) or raw bytes (invalid UTF-8, NUL, bare CR, over-long lines, 1-5 byte chunking); oracle = no connection task panics, closes only after ERROR/464 or fatal input on the sender, every bystander answers PING and receives a PRIVMSG from another bystander every 6 lines and at the end; non-trivial = line sent in a registered role; distinct by (verb, arity, parameter-length shape, role)",
             level: "exploration",
             assumptions: &["SIM engine (hook H1, in-memory transport); panics are attributed to a connection task by a poll wrapper + panic hook", "panics in detached timer tasks (ping_client_waker SendError after a client left) cannot affect a session and are recorded, not judged"],
+        },
+        CheckDef {
+            id: "C06",
+            run: c06::run,
+            replay: c06::replay,
+            rule: "fault enumeration: for each generated history (memberships with ranks, user modes, operator, away, pending invitations) x EVERY cut point x 2 victims x EVERY end kind (QUIT, close at line boundary, close mid-line, close with unread output pending, half-close, invalid UTF-8, over-long line, KILL by an operator, pong timeout in virtual time) plus several sessions closing in one step: the prefix is replayed in a fresh world, the session ended, and the survivors run the full probe battery (NAMES/WHO/WHOIS/MODE/TOPIC/LIST/LUSERS/ISON/USERHOST/WHOWAS), WALLOPS, an invited bystander's JOIN and a re-registration under the freed nick, all against the model; an evaluation = one (history, cut, victim, end kind); non-trivial = victim had a ranked membership or +w/+i/operator and the end kind is not QUIT; distinct by (end kind, victim feature vector, emptied-a-channel)",
+            level: "fault_enumeration",
+            assumptions: &["SIM engine: TCP RST cannot be produced on the in-memory transport (close = drop of the client half, half-close = shutdown of its write side)", "reference model on_close() = the clean-up rule of the statement", "keep-alive in virtual time with ping_timeout=50 s, pong_timeout=5 s"],
         },
         CheckDef {
             id: "C07",
